@@ -22,7 +22,29 @@ Definition row := (sid * (option conn * (N * N)))%type.
 Definition snapshot (st : state) : list row :=
   map (fun kv => (fst kv, (owner (snd kv), (created (snd kv), linger_since (snd kv))))) (tbl st).
 
-Record case := { k_cfg : config; k_nprox : N; k_ops : list cop;
+(* a harness operation: a client operation, or the release of proxy p with another daemon thread's action
+   (close_stream / housekeeping, given as the server event it performs) interleaved into the daemon's
+   disconnect handling.  By Props/C10.v (C10_disconnect_is_visits, C10_racing_disconnect_outcome) every such
+   interleaving ends in the table of: the other action, then the disconnect. *)
+Inductive hop := HOp (o : cop) | HRace (p : N) (ev : event).
+
+Definition hstep (cfg : config) (cs : cstate) (o : hop) : cstate * cresp :=
+  match o with
+  | HOp op => let '(cs1, r, _) := cstep gen_policy cfg cs op in (cs1, r)
+  | HRace p ev =>
+      match nthN (proxies cs) p with
+      | None => (cs, CNone)
+      | Some px =>
+          match p_conn px with
+          | None => (cs, CNone)       (* not connected: no disconnect handling runs, nothing to interleave with *)
+          | Some _ =>
+              let '(cs1, _) := srv_step cfg cs ev in
+              let '(cs2, r, _) := cstep gen_policy cfg cs1 (CRelease p) in (cs2, r)
+          end
+      end
+  end.
+
+Record case := { k_cfg : config; k_nprox : N; k_ops : list hop;
                  k_obs : list (cresp * list row); k_final : N }.
 
 Definition cresp_eqb (a b : cresp) : bool :=
@@ -36,11 +58,11 @@ Definition row_eqb (a b : row) : bool :=
   (fst a =? fst b) && option_eqb N.eqb (fst (snd a)) (fst (snd b))
   && (fst (snd (snd a)) =? fst (snd (snd b))) && (snd (snd (snd a)) =? snd (snd (snd b))).
 
-Fixpoint model_steps (cfg : config) (cs : cstate) (ops : list cop) : cstate * list (cresp * list row) :=
+Fixpoint model_steps (cfg : config) (cs : cstate) (ops : list hop) : cstate * list (cresp * list row) :=
   match ops with
   | [] => (cs, [])
   | op :: ops' =>
-      let '(cs1, r, _) := cstep gen_policy cfg cs op in
+      let '(cs1, r) := hstep cfg cs op in
       let '(cs2, out) := model_steps cfg cs1 ops' in
       (cs2, (r, snapshot (srv cs1)) :: out)
   end.
